@@ -51,7 +51,7 @@ def subsets_with(sigs, rnd):
     return [s for s in SIGS if s in sigs or s in extra]
 
 
-def build_scenario(n, lines_by_sig, proto, gzip, rnd, unit=UNIT, pad="rep"):
+def build_scenario(n, lines_by_sig, proto, gzip, rnd, unit=UNIT, pad="rep", signals=None, short_flush_ms=None):
     """lines_by_sig: {signal: REPLAY line}; events of the signals are interleaved round-robin."""
     limit = None
     streams = {}
@@ -82,7 +82,8 @@ def build_scenario(n, lines_by_sig, proto, gzip, rnd, unit=UNIT, pad="rep"):
     if len(lines_by_sig) == 1 and not refuse:
         flush_after = sorted(next(iter(lines_by_sig.values())).get("flushAt", [nev]))
     sc = {
-        "sc": n, "proto": proto, "gzip": gzip, "signals": subsets_with(list(lines_by_sig), rnd),
+        "sc": n, "proto": proto, "gzip": gzip,
+        "signals": signals or subsets_with(list(lines_by_sig), rnd),
         "flush_after": flush_after,
         "limit": limit, "unit": unit, "pad": pad, "events": events,
         "scripts": scripts,
@@ -95,6 +96,8 @@ def build_scenario(n, lines_by_sig, proto, gzip, rnd, unit=UNIT, pad="rep"):
     }
     if refuse:
         sc["refuse"] = refuse
+    if short_flush_ms:
+        sc["short_flush_ms"] = short_flush_ms
     return sc
 
 
@@ -108,6 +111,7 @@ def make_scenarios(ctx, lines):
     n_real = 12 if ctx.quick else 120
     n_big = 12 if ctx.quick else 120
     n_indep = 4 if ctx.quick else 30
+    n_short = 8 if ctx.quick else 36
     chosen = clean + faulty[:max(0, n_single - len(clean))]
     out = []
     for i, ln in enumerate(chosen):
@@ -138,6 +142,21 @@ def make_scenarios(ctx, lines):
         proto, gzip = TRANSPORTS[i % len(TRANSPORTS)]
         out.append(build_scenario(len(out), {SIGS[(i // 2) % 3]: rnd.choice(lines)}, proto, gzip, rnd,
                                   unit=BIG_UNIT, pad="rnd"))
+    # Flush with a timeout (400 ms) far below an outage: an earlier signal (flushed first: logs,
+    # then traces, then metrics) stalls three requests in a row (>= 3 x the request timeout), the
+    # later configured signals are healthy or idle (no events at all).  The short flush may
+    # return false; true is only right once everything emitted was acknowledged.
+    for i in range(n_short):
+        proto, gzip = TRANSPORTS[i % len(TRANSPORTS)]
+        down = SIGS[i % 2]                                   # logs or traces
+        later = SIGS[SIGS.index(down) + 1:]
+        later = later if i % 3 == 0 else later[-1:] if i % 3 == 1 else later[:1]
+        base = rnd.choice(clean)
+        ls = {down: dict(base, decs=["stall"] * 3, reqs=[], flushAt=[len(base["sizes"])])}
+        if (i // 2) % 2 == 0:                                # the later signals also carry events
+            for s in later:
+                ls[s] = dict(rnd.choice(by_limit[base["limit"]]), decs=[], reqs=[])
+        out.append(build_scenario(len(out), ls, proto, gzip, rnd, signals=[down] + later, short_flush_ms=400))
     # one signal's endpoint is down for a long time; the others must be delivered meanwhile
     for i in range(n_indep):
         proto, gzip = TRANSPORTS[i % len(TRANSPORTS)]
@@ -281,7 +300,8 @@ def run(ctx):
     # what the real executions exercised (vacuity guards)
     st = {"multi_request_batches": 0, "clean_flushes": 0, "faulty": 0, "real_limit_runs": 0,
           "max_request_bytes": 0, "flush_failed": 0, "client_side_failures": 0, "drift": 0,
-          "decisions": {}, "resends": 0, "reconnects": 0, "large_gzip_requests": 0, "random_payload_runs": 0}
+          "decisions": {}, "resends": 0, "reconnects": 0, "large_gzip_requests": 0, "random_payload_runs": 0,
+          "short_flushes_timed_out": 0}
     for sc, sm in zip(scenarios, rep["summaries"]):
         seg = segs.get(sc["sc"], [])
         reqs = [e for e in seg if e["ev"] == "Req"]
@@ -303,6 +323,7 @@ def run(ctx):
             st["real_limit_runs"] += 1
         if sc.get("pad") == "rnd":
             st["random_payload_runs"] += 1
+        st["short_flushes_timed_out"] += sum(1 for e in seg if e["ev"] == "Flush" and e.get("short") and not e["ok"])
         # gzip bodies that stay large on the wire (hardly compressible payload)
         st["large_gzip_requests"] += sum(1 for e in reqs if e["ack"] and e.get("gz") and e.get("bytes", 0) > 64 * 1024)
         st["max_request_bytes"] = max(st["max_request_bytes"], sm["max_request_bytes"])
@@ -376,7 +397,7 @@ def run(ctx):
     # vacuity guards (only meaningful when every trace was accepted)
     if rc is None and not ctx.violations:
         for k in ("multi_request_batches", "clean_flushes", "faulty", "real_limit_runs", "resends", "reconnects",
-                  "large_gzip_requests", "random_payload_runs"):
+                  "large_gzip_requests", "random_payload_runs", "short_flushes_timed_out"):
             if not st[k]:
                 raise vlib.ToolError("vacuity: no real execution with %s" % k)
         if st["max_request_bytes"] < 1024 * 1024:
